@@ -51,6 +51,10 @@ EXPLANATION += " Added: (R17) the FCHK basis block of dump_one against the block
 
 EXPLANATION += ' R15 (WFX spin labels): the reading side is the whole wfx.load_one with the section parser and the basis builder replaced by model values.'
 # --- end metadata round-2 twins
+# --- metadata added after the round-3 refactoring twins
+TECHNIQUE += '; model-stream evaluation of the Molden loader for the tag lines'
+EXPLANATION += ' R8 (and C03-R11): the reading side of the Molden tags is `_load_low` interpreted on a model stream with its three section readers replaced by model values (shells s..h, one orbital sized for the expected kinds), tags before and after the sections. R14..R19: the [GTO] writer may be a helper of the module.'
+# --- end metadata round-3 twins
 
 
 def module_closure(prog, root):
